@@ -1,7 +1,7 @@
 (* C04 — handles are independent and memory-safe across threads, under every schedule.   (partial: see below) *)
 From Coq Require Import Lia Arith List Bool String.
 From LSConc Require Import Clock Mach Inv Top.
-From LS Require Import Base Cmd Impl Proto ProtoOps Compose Programs.
+From LS Require Import Base Cmd Impl Proto ProtoOps Compose Programs Sched.
 From LSGen Require Import GenSrc.
 Import ListNotations.
 
@@ -100,6 +100,20 @@ Example C04_example :
   /\ (exists s, Mach.run (Mach.init 2) [(0,AClone);(0,ASpawn 1 1);(1,ARelease);(0,AProbe 1)]%nat = Mach.Ok s /\ Mach.excl (Mach.getth s 0) = false).
 Proof. split; eexists; vm_compute; split; reflexivity. Qed.
 
+(* non-vacuity of the composition: a concrete interleaving (threads alternate event by event; thread 0 pushes and reads,
+   thread 1 removes, clones and drops the clone) of the two-thread instance of the programs above runs to completion:
+   both threads finish and the buffer has been released (exactly once: a second release would be DoubleFree) *)
+Definition ex_ops (i : nat) : list hop :=
+  match i with O => [HPush [97%N]; HRead] | _ => [HRemove 0%N; HCloneDrop] end.
+Definition ex_sched : list choice :=
+  map (fun i => {| who := Nat.modulo i 2; probe := 0; fresh_id := Some (S i) |}) (seq 0 200).
+Example C04_execution_example :
+  let final := run_sched 0%nat (cfg0 0%nat 5%N 1 ex_ops) ex_sched in
+  csteps 0%nat (cfg0 0%nat 5%N 1 ex_ops) final
+  /\ Mach.live (ms final) = false
+  /\ forallb (fun x => match cur x, rest x with Ret _, [] => true | _, _ => false end) (tc final) = true.
+Proof. cbv zeta. split; [apply run_sched_sound|]. vm_compute. auto. Qed.
+
 Print Assumptions C04_atomic_sites.
 Print Assumptions C04_protocol_safe_all_schedules.
 Print Assumptions C04_invariant.
@@ -114,3 +128,4 @@ Print Assumptions C04_typed_progress.
 Print Assumptions C04_shared_handles_typed.
 Print Assumptions C04_shared_handles_safe.
 Print Assumptions C04_example.
+Print Assumptions C04_execution_example.
